@@ -174,6 +174,9 @@ def locations(I, sim, tab, options=()):
         elif dt == 'REB_VEC3D':
             for k, c in enumerate('xyz'): out.append(Loc(nm + '.' + c, F64, nm, (off + 8 * k, False, 0)))
         elif dt in ('REB_POINTER', 'REB_POINTER_FIXED_SIZE', 'REB_POINTER_ALIGNED'):
+            if dt != 'REB_POINTER_FIXED_SIZE' and ('count', e['offset_N']) not in seen:
+                seen.add(('count', e['offset_N']))
+                out.append(Loc('count:' + nm, I32, 'count:' + nm, (e['offset_N'], False, 0)))      # the element counter belongs to the persisted state
             p = ld(off, PtrT(I8))
             if p == NULL: continue
             cnt = ld(e['offset_N'], I32) if dt != 'REB_POINTER_FIXED_SIZE' else 1
@@ -198,6 +201,8 @@ def locations(I, sim, tab, options=()):
                     for k in range(es // 4):
                         out.append(Loc("%s[%d]+%d" % (nm, i, 4 * k), I32, nm, (off, True, i * es + 4 * k)))
         elif dt == 'REB_DP7':
+            if ('count', e['offset_N']) not in seen:
+                seen.add(('count', e['offset_N'])); out.append(Loc('count:' + nm, I32, 'count:' + nm, (e['offset_N'], False, 0)))
             cnt = ld(e['offset_N'], I32)
             for q in range(7):
                 p = ld(off + 8 * q, PtrT(I8))
